@@ -212,7 +212,37 @@ func c13(r *mon.Run) {
 	corpus := []string{"a", "a.b", "a[0]", "a[*].b", "[?a>`1`]", "{x: a, y: b}", "sort_by(a, &b)", "'raw'", "'it\\'s'", "`[1,2]`", "\"q\".b", "a || b && !c", "a | b", "*.a[]", "[a, b][0]", "f(@)", "a[1:2:3]", "'x' == 'y'",
 		"'a\\'b' | 'c\\'d'", "'''", "'abc", "'a\\'b", "\"abc", "`abc", "\"\\x\"", "`{`", "a.", "a..b", "[", "a[", "(", "a)", "{a:", "a b", "#", "a#b", "é", "a == ", "&a", "f(a b)", "[0", "a[0:1:2:3]", "@(", "", " ", "'unterminated \\'",
 		"\ufeffa", "\ufeffpeople[0].name", "\ufeff", "\u00a0a", "\u200ba", "\x00a", "people[0].name", "a ~ b", "a", "'unclosed", "\ufeff'x", "'1'", "`1`", "a == '1'", "a == `1`", "'true'", "`true`", "'null'", "`null`", "'[1]'", "`[1]`", "'\"a\"'", "`\"a\"`", "\"a\"", "'a'", "`{}`", "'{}'", "[?a == '1' || b == `1`]", "'*'", "['*']", "[*]", "\"*\"", "[\"*\"]",
-		"'q\\'", "a['", "\"a\\\"", "a.'b'", "1", "-", "[-]", "a[99999999999999999999]"}
+		"'q\\'", "a['", "\"a\\\"", "a.'b'", "1", "-", "[-]", "a[99999999999999999999]",
+		// calls without arguments (last thing parsed, or not), expression references in and out of place, every construct as the last thing parsed
+		"f()", "a[?f()]", "a || f()", "[f(), g()]", "f(g())", "{a: f()}", "f().a", "!f()", "a == f()", "a.f()", "a | f()", "f(&a)", "f(&a, b)", "f(b, &a)", "&a.b || c", "& keys(@)", "&[0]", "&f()", "sort_by(items, &a.b)", "max_by(items, &score) || latest()",
+		"a[", "a[?", "a[?b", "a.{", "a.[", "a[*", "a[]", "a[].", "!", "!a", "a &&", "a && b", "a <", "a < b", "a,", ",a", "a:", ":a", "a]", "a}", "`1` `2`", "a.*", "*", "*.", "a[::", "a[::]", "a[::-1]", "f(,)", "f(a,)", "f(a)b", "@", "@.", "@@", "()", "(a", "((a)", "{}", "[]", "[a,]", "{a: b,}", "a | ", "| a"}
+	// every ordered pair of corpus entries on one Parser: whatever the first parse leaves behind (a flag set
+	// by its last token, a buffer, a position) meets every kind of second expression
+	pairs := mon.Workload{Name: "parser-pairs", N: len(corpus) * len(corpus), Batch: 5000,
+		Describe: func(i int) string { return fmt.Sprintf("%q then %q on one Parser", corpus[i/len(corpus)], corpus[i%len(corpus)]) },
+		Do: func(i int, t *mon.Tally) {
+			x, y := corpus[i/len(corpus)], corpus[i%len(corpus)]
+			p := jmespath.NewParser()
+			t.Eval()
+			first := parseOutcome(p, x)
+			got := parseOutcome(p, y)
+			want := parseOutcome(jmespath.NewParser(), y)
+			if got != want {
+				r.Violate(&mon.Violation{Workload: "parser-pairs", Index: i, API: "(*Parser).Parse", Expr: y, Expected: "a reused Parser behaves like a fresh one: " + want, Observed: got,
+					Detail: fmt.Sprintf("after parsing %q with the same Parser (outcome: %s)", x, clipStr(first, 200)), Class: "reused parser differs (pair)"})
+				return
+			}
+			// and once more after the pair: the first expression again
+			if again := parseOutcome(p, x); again != first {
+				r.Violate(&mon.Violation{Workload: "parser-pairs", Index: i, API: "(*Parser).Parse", Expr: x, Expected: "a reused Parser behaves like a fresh one: " + first, Observed: again,
+					Detail: fmt.Sprintf("after parsing %q and %q with the same Parser", x, y), Class: "reused parser differs (pair, first expression again)"})
+				return
+			}
+			if (len(first) > 0 && first[0] != '(') != (len(got) > 0 && got[0] != '(') {
+				t.Nontrivial("pp:" + strconv.Itoa(i))
+			}
+			t.Count("ordered pairs of expressions on one Parser")
+		}}
 	np := tierPick(r, 6000, 150000)
 	ph := mon.Workload{Name: "parser-histories", N: np, Batch: 200,
 		Do: func(i int, t *mon.Tally) {
@@ -486,6 +516,51 @@ func c13(r *mon.Run) {
 			}
 			t.Nontrivial("tsu:" + expr + fmt.Sprint(mode))
 		}}
+	// one compiled expression over documents in which an element in the middle (first, second, third, last, the
+	// 18th of 40) makes a projection body / filter condition / key expression fail, each followed by a document
+	// on which everything succeeds: what a failing search leaves on the compiled expression (an error kept for
+	// after the sort, a partially filled buffer) must not reach the next search
+	felTrees, felDocs := c11LateCases()
+	felOrder := []int{0, 2, 0, 3, 0, 1, 0, 4, 0, 6, 0, 7, 5, 0} // document 0 has no failing element
+	fel := mon.Workload{Name: "failing-elements-between-successes", N: len(felTrees), Batch: 20,
+		Describe: func(i int) string { return gen.Spell(felTrees[i]) },
+		Do: func(i int, t *mon.Tally) {
+			tree := felTrees[i]
+			expr := gen.Spell(tree)
+			jp, co := apiCompile(expr)
+			if co.Panicked || co.Err != nil {
+				r.Inconclusive("C13 workload expression does not compile: " + expr)
+				return
+			}
+			sawFail, failThenOK := false, false
+			for k, di := range felOrder {
+				doc := felDocs[di%len(felDocs)]
+				t.Eval()
+				oc := apiJP(jp, mon.DeepCopy(doc))
+				of := apiCompiledSearch(expr, mon.DeepCopy(doc))
+				oo := apiSearch(expr, mon.DeepCopy(doc))
+				if oc.Panicked || of.Panicked || oo.Panicked {
+					r.Violate(&mon.Violation{Workload: "failing-elements-between-successes", Index: i, API: "(*JMESPath).Search", Expr: expr, Doc: doc, Expected: "no panic", Observed: oc.String() + " / " + of.String() + " / " + oo.String(), Class: "panic"})
+					return
+				}
+				res := ref.RefSet(tree, doc, gen.Quirks{})
+				if !agree(res, oc, of) || !agree(res, of, oo) {
+					r.Violate(&mon.Violation{Workload: "failing-elements-between-successes", Index: i, API: "(*JMESPath).Search", Expr: expr, Doc: doc,
+						Expected: "call " + fmt.Sprint(k+1) + " of the history answers like a freshly compiled expression (" + of.String() + ") and like the one-shot Search (" + oo.String() + ")", Observed: oc.String(),
+						Detail: fmt.Sprintf("history (document indices): %v", felOrder[:k+1]), Class: "reused compiled expression differs from a fresh one (failing elements)"})
+					return
+				}
+				if oc.Err != nil {
+					sawFail = true
+				} else if sawFail {
+					failThenOK = true
+				}
+			}
+			if failThenOK {
+				t.Nontrivial("fel:" + expr)
+				t.Count("histories with a failing element followed by a success")
+			}
+		}}
 	// expressions that invite a rewrite at compile time (an index behind a sort, a sort behind a sort, double
 	// negation, an operator applied to twice the same operand, a one-member multi-select indexed at once, a slice
 	// that keeps everything, a length of a filter, a map that is nearly a projection ...) on documents where the
@@ -509,7 +584,7 @@ func c13(r *mon.Run) {
 				}
 			}
 		}}
-	r.Exec(hist, ph, lph, sh, lsh, tsu, rw)
+	r.Exec(hist, ph, pairs, lph, sh, lsh, tsu, rw, fel)
 }
 
 // c13Rewritable: see the workload compiled-versus-one-shot-on-rewritable-shapes.
